@@ -210,6 +210,58 @@ def j_rules(P, E):
                       "the observer is inserted before its teardown is installed: an emission in between that unsubscribes it "
                       "leaves it in the map forever", body=src, line=c.line)
 
+    # ---- J9: the subscriber-count hooks are live: stored by set_on_(un)subscribe, invoked with the map's size after the
+    # insert (subscribe path) / after the remove (teardown), and ReplaySubject forwards them to its inner Subject;
+    # the teardown of a Behavior/Replay subscriber releases its relay.  (ref_count / replay connect through these hooks.)
+    for (meth, field) in (("set_on_subscribe", "on_subscribe"), ("set_on_unsubscribe", "on_unsubscribe")):
+        mb = P.body(SUBJ + "::" + meth)
+        if mb is None:
+            r.error("anchor missing: Subject::%s" % meth)
+            continue
+        stores = False
+        for i in sorted(mb.reach):
+            for s_ in mb.blocks[i]["stmts"]:
+                if s_["k"] == "assign" and len(s_["lhs"]) > 1 and "*" in s_["lhs"] and _hits(P, mb, mb.place_prov(s_["lhs"]), field):
+                    stores = True
+        for c in mb.calls:
+            if c.path in ("std::option::Option::replace", "std::option::Option::insert", "std::mem::replace") and c.args and \
+                    _hits(P, mb, mb.operand_prov(c.args[0]), field):
+                stores = True
+        r.instance(("J9", mb.nid), True, "stores the hook: %s" % stores)
+        if not stores:
+            r.violate(("J9", mb.nid, "hook not stored"), "Subject::%s does not store the hook it is given" % meth, body=mb)
+    for (body_, field, what) in ((src, "on_subscribe", "subscribe path"), (teardown, "on_unsubscribe", "teardown")):
+        calls = [c for c in body_.calls if atom(c) == "fw_call" and c.args and _hits(P, body_, body_.operand_prov(c.args[0]), field)]
+        r.instance(("J9", body_.nid, field), True, "hook invocations %s" % [c.bb for c in calls])
+        if not calls:
+            r.violate(("J9", body_.nid, "%s hook never invoked" % field),
+                      "the %s of Subject::observable never invokes the %s hook: ref_count / replay, which connect and disconnect "
+                      "through it, never see a subscriber arrive or leave" % (what, field), body=body_)
+    for meth in ("set_on_subscribe", "set_on_unsubscribe"):
+        mb = P.body("subjects::replay_subject::ReplaySubject::" + meth)
+        if mb is None:
+            r.error("anchor missing: ReplaySubject::%s" % meth)
+            continue
+        fwd = [c for c in mb.calls if c.path == SUBJ + "::" + meth and len(c.args) > 1 and
+               all(t[0] == "param" and t[1] == 2 for t in mb.operand_prov(c.args[1]))]
+        r.instance(("J9", mb.nid), True, "forwards %s" % [c.bb for c in fwd])
+        if not fwd or Effects.path_avoiding(mb, mb.returns, [c.bb for c in fwd]) is not None:
+            r.violate(("J9", mb.nid, "hook not forwarded"), "ReplaySubject::%s does not hand the hook to its inner Subject" % meth, body=mb)
+    for owner in ("subjects::behavior_subject::BehaviorSubject", "subjects::replay_subject::ReplaySubject"):
+        osrc = source_closure_of(P, owner + "::observable")
+        if osrc is None:
+            continue
+        tds = [P.bodies[c.arg_closure(1)] for c in osrc.calls if atom(c) == "set_on_unsubscribe" and c.arg_closure(1) in P.bodies]
+        r.instance(("J9", osrc.nid, "teardown"), True, "%d teardown closure(s)" % len(tds))
+        if not tds:
+            r.violate(("J9", owner, "no teardown installed"), "%s::observable installs no teardown on the subscriber" % owner, body=osrc)
+        for td in tds:
+            un = [c for c in td.calls if atom(c) == "sub_unsubscribe"]
+            if not un:
+                r.violate(("J9", owner, "teardown does not release the relay"),
+                          "the subscriber's teardown does not unsubscribe the relay attached to the live subject: an unsubscribed "
+                          "subscriber's relay stays in the subject's observer map", body=td)
+
     # ---- J6: history before broadcast; subscribe live before replay
     # every state-recording write of a Behavior/Replay subject method precedes its broadcast
     nrec = 0
@@ -404,6 +456,46 @@ def p_rules(P, E):
                 r.violate(("P6", root, "disconnect leaves the stale subscription stored"),
                           "when the last subscriber leaves, the source subscription is unsubscribed but stays in the cell: connect() finds "
                           "`is_some()` for ever, so the next first subscriber never subscribes the source again", body=down, line=c.line)
+        # P7: polarity, decided on the hooks' symbolic summaries: connect subscribes the source exactly when the count
+        # is 1 and nothing is connected; disconnect unsubscribes exactly when the count is 0 and something is connected
+        try:
+            from rules_count import Summary, Undecided, ALPHABET
+            for hook, role in ((up, "connect"), (down, "disconnect")):
+                S = Summary(P, E, hook, item_param=99, item_kind="none", serial_param=2)
+                syms = S.symbols()
+                cells = [S.cellsym(g) for g, k in S.cellinfo.items() if k and k[0] == "optcell" and S.cellsym(g) in syms]
+                if len(cells) != 1:
+                    raise Undecided("%s hook: expected the one stored-subscription cell, found %d" % (role, len(cells)))
+                for cnt in (0, 1, 2, 3):
+                    for present in (False, True):
+                        sigma = {cells[0]: present, "in:serial": cnt}
+                        for s_ in S.symbols():
+                            sigma.setdefault(s_, 0)
+                        outs = S.step(sigma, ALPHABET)
+                        if not outs:
+                            raise Undecided("%s hook: no feasible path for count %d" % (role, cnt))
+                        for (tr, nx), (p_, c_) in outs.items():
+                            if any(x[0] == "loop" for x in p_.trace):
+                                continue      # a retry loop cut after two rounds: truncated path, judged by its full siblings
+                            did_sub = any(x[0] == "subscribe" for x in tr)
+                            did_unsub = any(x[0] == "sub_unsubscribe" for x in tr)
+                            if role == "connect":
+                                want = (cnt == 1 and not present)
+                                if did_sub != want or did_unsub:
+                                    r.violate(("P7", root, "connect polarity"),
+                                              "with %d subscriber(s) and %s, the connect hook %s the source; it must subscribe it exactly when the "
+                                              "first subscriber arrives and nothing is connected" % (cnt, "a live connection" if present else "no connection",
+                                                                                                     "subscribes" if did_sub else "does not subscribe"), body=hook)
+                            else:
+                                want = (cnt == 0 and present)
+                                if did_unsub != want or did_sub:
+                                    r.violate(("P7", root, "disconnect polarity"),
+                                              "with %d subscriber(s) left and %s, the disconnect hook %s the source subscription; it must do so exactly "
+                                              "when the last subscriber leaves a live connection" % (cnt, "a live connection" if present else "no connection",
+                                                                                                   "unsubscribes" if did_unsub else "does not unsubscribe"), body=hook)
+                r.instance(("P7", hook.nid), True, "%s hook: 8 (count, connected) states" % role)
+        except Undecided as e:
+            r.error("P7: not decidable in the abstraction: %s" % e)
         # P4: subscription written only in count-up
         from rules_c17 import _closures_in_view
         for b in [rb] + _closures_in_view(P, rb):
